@@ -6,6 +6,8 @@ import (
 	"os"
 	"sort"
 	"strings"
+	"sync/atomic"
+	"time"
 
 	webdav "github.com/emersion/go-webdav"
 	"github.com/emersion/go-webdav/caldav"
@@ -25,6 +27,8 @@ type seqSystem struct {
 	h     http.Handler
 	reset func()
 	calls func() []harness.Call
+	// wallClock: the system stamps what it stores with the current time (files on disk)
+	wallClock bool
 }
 
 func newSeqSystem(kind string) *seqSystem {
@@ -37,6 +41,39 @@ func newSeqSystem(kind string) *seqSystem {
 			fs.Files = fresh.Files
 			fs.Reset()
 		}}
+	case "webdav-local":
+		// the same tree on disk behind LocalFileSystem
+		root := harness.NewDir("seq-")
+		mk := func() {
+			os.RemoveAll(root)
+			os.MkdirAll(root, 0o755)
+			fs, _ := c11MemFS()
+			var dirs, files []string
+			for p, f := range fs.Files {
+				if f.Info.IsDir {
+					dirs = append(dirs, p)
+				} else {
+					files = append(files, p)
+				}
+			}
+			sort.Strings(dirs)
+			for _, d := range dirs {
+				os.MkdirAll(root+d, 0o755)
+			}
+			mt := time.Unix(1600000000, 0)
+			for _, f := range files {
+				os.WriteFile(root+f, []byte("data"), 0o644)
+				os.Chtimes(root+f, mt, mt)
+			}
+			for i := len(dirs) - 1; i >= 0; i-- {
+				os.Chtimes(root+dirs[i], mt, mt)
+			}
+		}
+		mk()
+		return &seqSystem{h: &webdav.Handler{FileSystem: webdav.LocalFileSystem(root)}, calls: func() []harness.Call {
+			t, _ := harness.Snapshot(root)
+			return []harness.Call{{Method: "tree", Path: t.Canon()}}
+		}, reset: mk, wallClock: true}
 	case "caldav":
 		mk := func() ([]caldav.Calendar, []caldav.CalendarObject) {
 			return []caldav.Calendar{{Path: l.Coll1, Name: "k1"}, {Path: l.Coll2, Name: "k2"}}, []caldav.CalendarObject{{Path: l.Obj + ".ics", ETag: "e1", Data: harness.SampleCalendar("1", "s")}}
@@ -82,10 +119,33 @@ func canonBody(b []byte) string {
 	return f(root)
 }
 
+// serveWatched serves one request; a handler that has not answered after 30 s never will (a lock left
+// behind by an earlier request): reported as an observation of its own, not as a hang of the check
+func serveWatched(h http.Handler, q harness.Req) harness.Resp {
+	if seqHangs.Load() >= 3 {
+		// the process is poisoned (a lock was left behind): do not wait again and again
+		return harness.Resp{Status: -1, Panic: "not served: earlier requests of this run never returned"}
+	}
+	ch := make(chan harness.Resp, 1)
+	go func() { ch <- harness.Serve(h, q) }()
+	select {
+	case r := <-ch:
+		return r
+	case <-time.After(20 * time.Second):
+		seqHangs.Add(1)
+		return harness.Resp{Status: -1, Panic: "the handler did not answer within 20 s"}
+	}
+}
+
+var seqHangs atomic.Int32
+
 func seqObserve(sys *seqSystem, q harness.Req) string {
-	resp := harness.Serve(sys.h, q)
+	resp := serveWatched(sys.h, q)
 	var hs []string
 	for _, k := range []string{"Content-Type", "Etag", "Last-Modified", "Location", "Allow", "Dav", "Content-Length"} {
+		if sys.wallClock && q.Method == "PUT" && (k == "Etag" || k == "Last-Modified") {
+			continue // a file just written to disk carries the time of writing (wall clock)
+		}
 		if v := resp.Header.Values(k); len(v) > 0 {
 			hs = append(hs, k+"="+strings.Join(v, ","))
 		}
@@ -99,13 +159,15 @@ func seqObserve(sys *seqSystem, q harness.Req) string {
 
 // SeqHistories runs part D and records into the run.
 func SeqHistories(r *engine.Run, quick bool, reverse func() (map[string]string, error)) {
+	defer harness.Cleanup()
 	seeds := c13Seeds()
 	byKind := map[string][]c13Seed{}
 	for _, s := range seeds {
 		byKind[s.Handler] = append(byKind[s.Handler], s)
 	}
 	// richer first requests: reports with expand / limit / is-not-defined etc. come from the C13 seeds already
-	kinds := []string{"webdav", "caldav", "carddav", "principal"}
+	byKind["webdav-local"] = byKind["webdav"]
+	kinds := []string{"webdav", "webdav-local", "caldav", "carddav", "principal"}
 	type pair struct {
 		kind string
 		i, j int
@@ -156,9 +218,13 @@ func SeqHistories(r *engine.Run, quick bool, reverse func() (map[string]string, 
 	r.Extra["sequential_history_pairs"] = len(pairs)
 	r.Parallel(len(pairs), func(n int, s *engine.Shard) {
 		p := pairs[n]
+		if seqHangs.Load() >= 3 {
+			s.Count("sequential-history pairs skipped after three requests that never returned")
+			return
+		}
 		first, second := byKind[p.kind][p.i], byKind[p.kind][p.j]
 		sys := newSeqSystem(p.kind)
-		harness.Serve(sys.h, first.Req)
+		serveWatched(sys.h, first.Req)
 		sys.reset()
 		got := seqObserve(sys, second.Req)
 		s.Transition()
@@ -176,7 +242,7 @@ func SeqHistories(r *engine.Run, quick bool, reverse func() (map[string]string, 
 			sys2 := newSeqSystem(p.kind)
 			q := cloneReq(first.Req)
 			q.Header["X-User"] = "v"
-			harness.Serve(sys2.h, q)
+			serveWatched(sys2.h, q)
 			sys2.reset()
 			got2 := seqObserve(sys2, second.Req)
 			s.Transition()
@@ -195,11 +261,13 @@ func SeqHistories(r *engine.Run, quick bool, reverse func() (map[string]string, 
 
 // SeqSoloObservations serves every seed request on a brand-new handler, in forward or reverse order.
 func SeqSoloObservations(reverseOrder bool) map[string]string {
+	defer harness.Cleanup()
 	byKind := map[string][]c13Seed{}
 	for _, s := range c13Seeds() {
 		byKind[s.Handler] = append(byKind[s.Handler], s)
 	}
-	kinds := []string{"webdav", "caldav", "carddav", "principal"}
+	byKind["webdav-local"] = byKind["webdav"]
+	kinds := []string{"webdav", "webdav-local", "caldav", "carddav", "principal"}
 	type kj struct {
 		k string
 		j int
@@ -226,7 +294,7 @@ func SeqSoloObservations(reverseOrder bool) map[string]string {
 func ReplaySeq(handler string, first, second harness.Req) (bool, string) {
 	want := seqObserve(newSeqSystem(handler), second)
 	sys := newSeqSystem(handler)
-	harness.Serve(sys.h, first)
+	serveWatched(sys.h, first)
 	sys.reset()
 	got := seqObserve(sys, second)
 	return got == want, "alone: " + trunc(want, 300) + " | after the first request: " + trunc(got, 300)
